@@ -37,7 +37,7 @@ import numpy as np
 from . import common
 
 PID = "C16"
-HARNESS_VERSION = 4
+HARNESS_VERSION = 5
 MYFILES = ["State/Memoize.v", "Corr/CheckC16.v"]
 
 # No known findings: both historical defects (shared store, aliasing of returned
@@ -83,10 +83,20 @@ def _pylops():
     return pylops
 
 
+def opdtype(A, cplx):
+    """dtype of the wrapped operator: A's own dtype when it is a float/complex array (a REAL
+    operator may be driven with COMPLEX vectors: then cplx is True and A.dtype is real),
+    else float64 / complex128 according to the representation flag."""
+    dt = getattr(A, "dtype", None)
+    if dt is not None and dt.kind in "fc":
+        return dt
+    return np.dtype(np.complex128 if cplx else np.float64)
+
+
 def build(A, cplx, maxn):
     """MemoizeOperator around a counting wrapper around MatrixMult(A)."""
     pylops = _pylops()
-    dt = np.complex128 if cplx else np.float64
+    dt = opdtype(A, cplx)          # operator dtype (float32 / float64 / complex128); independent of the inputs' dtypes
     base = pylops.MatrixMult(np.asarray(A, dtype=dt), dtype=dt)
 
     class Counting(pylops.LinearOperator):
@@ -131,7 +141,7 @@ class Runner:
         if op[0] == "c":
             _, d, inn, out, lit = op
             if lit is not None:
-                self.pool[inn] = np.array(lit, dtype=self.dt)
+                self.pool[inn] = np.array(lit) if isinstance(lit, np.ndarray) and lit.dtype.kind in "fc" else np.array(lit, dtype=self.dt)
             if inn not in self.pool or self.pool[inn].shape != ((self.shape[1],) if d == "F" else (self.shape[0],)):
                 return False
             vin = self.pool[inn].copy()
@@ -149,7 +159,12 @@ class Runner:
             w = np.array(w, dtype=self.dt)
             if name not in self.pool or self.pool[name].shape != w.shape:
                 return False
+            if not np.iscomplexobj(self.pool[name]) and np.iscomplexobj(w):
+                if np.any(w.imag != 0):
+                    return False              # a complex value cannot be written into a real array
+                w = w.real
             self.pool[name][...] = w          # in place: the caller writes into an array it holds
+            w = np.array(self.pool[name], dtype=self.dt)
             if name in self.ret_of:
                 self.coq.append(("Mut", self.ret_of[name], w))
             elif name in self.first_in:
@@ -329,6 +344,22 @@ PROBES = [
      [("c", "A", "in0", "out0", [2 ** 24, 1, 0]), ("c", "A", "in1", "out1", [2 ** 24, 2, 0])]),
     ("large dynamic range, complex (matvec [2^27 i, 1]; matvec [2^27 i, 1+i])", PROBE_SQC, True,
      [("c", "F", "in0", "out0", [2 ** 27 * 1j, 1]), ("c", "F", "in1", "out1", [2 ** 27 * 1j, 1 + 1j])]),
+    ("real operator, complex input z then its real part as float64 then z again", np.array(PROBE_A, dtype=np.float64), True,
+     [("c", "F", "in0", "out0", np.array([1 + 2j, 3 - 1j])), ("c", "F", "in1", "out1", np.array([1.0, 3.0])),
+      ("c", "F", "in2", "out2", np.array([1 + 2j, 3 - 1j]))]),
+    ("real operator, complex input z then its real part as complex128", np.array(PROBE_A, dtype=np.float64), True,
+     [("c", "F", "in0", "out0", np.array([1 + 2j, 3 - 1j])), ("c", "F", "in1", "out1", np.array([1 + 0j, 3 + 0j]))]),
+    ("real operator, two complex inputs with the same real part", np.array(PROBE_A, dtype=np.float64), True,
+     [("c", "F", "in0", "out0", np.array([1 + 2j, 3 - 1j])), ("c", "F", "in1", "out1", np.array([1 - 1j, 3 + 2j]))]),
+    ("real operator, adjoint: complex y, Re y as float64, y again", np.array(PROBE_A, dtype=np.float64), True,
+     [("c", "A", "in0", "out0", np.array([1 + 1j, 2, 3j])), ("c", "A", "in1", "out1", np.array([1.0, 2.0, 0.0])),
+      ("c", "A", "in2", "out2", np.array([1 + 1j, 2, 3j]))]),
+    ("float32 operator, complex input then its real part (both directions)", np.array(PROBE_A, dtype=np.float32), True,
+     [("c", "F", "in0", "out0", np.array([2 - 1j, 1j])), ("c", "F", "in1", "out1", np.array([2.0, 0.0])),
+      ("c", "A", "in2", "out2", np.array([1j, 1 + 1j, 2])), ("c", "A", "in3", "out3", np.array([0.0, 1.0, 2.0]))]),
+    ("float32 operator, float64 input beyond the float32 range passed twice (second call must be a hit)",
+     np.array(PROBE_A, dtype=np.float32), False,
+     [("c", "F", "in0", "out0", np.array([2.0 ** 130, 1.0])), ("c", "F", "in1", "out1", np.array([2.0 ** 130, 1.0]))]),
     ("large dynamic range, complex adjoint", PROBE_SQC, True,
      [("c", "A", "in0", "out0", [1j, 2 ** 27]), ("c", "A", "in1", "out1", [2j, 2 ** 27])]),
 ]
@@ -360,7 +391,7 @@ def _ivec(r, n, cplx, lo=-3, hi=3):
             return np.array(v, dtype=np.complex128 if cplx else np.float64)
 
 
-def gen_history(r, A, cplx, maxn, L, mode, with_mut, dyn=False):
+def gen_history(r, A, cplx, maxn, L, mode, with_mut, dyn=False, cin=False):
     """Generate a caller program while running it (inputs may be arrays returned earlier).
     Returns (history, stats)."""
     m, n = A.shape
@@ -388,6 +419,19 @@ def gen_history(r, A, cplx, maxn, L, mode, with_mut, dyn=False):
         return v, w
 
     def alphabet(k, tag):
+        if cin:
+            # REAL operator driven with complex vectors: z, Re z (float64), Re z (complex128, zero imaginary part),
+            # z' with the same real part and another imaginary part, and an unrelated complex vector
+            while True:
+                z = _ivec(r, k, True)
+                if np.any(z.real) and np.any(z.imag):
+                    break
+            while True:
+                z2 = z.real + 1j * _ivec(r, k, False)
+                if np.any(z2 != z):
+                    break
+            return {tag + "a": z, tag + "b": z.real.copy(), tag + "c": z.real.astype(np.complex128), tag + "d": z2,
+                    tag + "e": _ivec(r, k, True)}
         if dyn and k >= 2:
             v1, w1 = dynpair(k)
             v2, w2 = dynpair(k)
@@ -423,7 +467,7 @@ def gen_history(r, A, cplx, maxn, L, mode, with_mut, dyn=False):
             elif kind == "scale":
                 w = cur * r.choice([2, -1, 3])
             elif kind == "set":
-                w = _ivec(r, len(cur), cplx, -9, 9)
+                w = _ivec(r, len(cur), bool(np.iscomplexobj(cur)), -9, 9)
             elif kind == "alpha":
                 c = [b for b in base.values() if len(b) == len(cur)]
                 w = r.choice(c).copy()
@@ -541,6 +585,7 @@ def _hist_json(hist):
             o = {"op": "matvec" if op[1] == "F" else "rmatvec", "input_array": op[2], "returned_array": op[3]}
             if op[4] is not None:
                 o["input_is_new_array_with_content"] = [str(complex(t)) for t in op[4]]
+                o["dtype"] = str(np.asarray(op[4]).dtype) if np.asarray(op[4]).dtype.kind in "fc" else None
             out.append(o)
         else:
             out.append({"op": "overwrite_in_place", "array": op[1], "content": [str(complex(t)) for t in op[2]]})
@@ -555,14 +600,17 @@ def _hist_from_json(hj, cplx):
             out.append(("w", o["array"], cv(o["content"])))
         else:
             lit = o.get("input_is_new_array_with_content")
-            out.append(("c", "F" if o["op"] == "matvec" else "A", o["input_array"], o["returned_array"],
-                        cv(lit) if lit is not None else None))
+            if lit is not None:
+                lit = cv(lit)
+                if o.get("dtype"):
+                    lit = (lit.real if np.dtype(o["dtype"]).kind == "f" else lit).astype(o["dtype"])
+            out.append(("c", "F" if o["op"] == "matvec" else "A", o["input_array"], o["returned_array"], lit))
     return out
 
 
 def replay_dict(A, cplx, maxn, hist, reason):
     return {"operator": "MemoizeOperator(MatrixMult(A), max_neval)", "A": [[str(complex(t)) for t in row] for row in np.asarray(A)],
-            "complex": bool(cplx), "max_neval": int(maxn), "history": _hist_json(hist), "observed": reason,
+            "complex": bool(cplx), "operator_dtype": str(opdtype(A, cplx)), "max_neval": int(maxn), "history": _hist_json(hist), "observed": reason,
             "expected": "every call returns what MatrixMult(A) returns for the content its input has at the time of the call; "
                         "len(store) <= max_neval; no re-evaluation of a repeated input",
             "how": "array names denote caller-held array OBJECTS: the same name passed twice is the same object; "
@@ -577,6 +625,9 @@ def replay(rp):
     A = np.array([[complex(t) for t in row] for row in rp["A"]])
     if not cplx:
         A = A.real
+    if rp.get("operator_dtype"):
+        odt = np.dtype(rp["operator_dtype"])
+        A = (A.real if odt.kind == "f" else A).astype(odt)
     hist = _hist_from_json(rp["history"], cplx)
     res = judge(A, cplx, rp["max_neval"], hist)
     if res is None:
@@ -607,13 +658,14 @@ def main(tier):
         cases.append({"id": len(cases), "A": A, "cplx": cplx, "maxn": 3, "hist": hp, "out": run.obs, "coq": run.coq,
                       "model": model, "mode": "M", "run": run})
     nfixed = len(cases)
-    R.notes.append("canonical probes (%d: mixed directions, aliasing of returned / input arrays, square operator with a common vector, large dynamic range): %s"
+    R.notes.append("canonical probes (%d: mixed directions, aliasing of returned / input arrays, square operator with a common vector, large dynamic range, real-dtype operator with complex inputs / float32 operator): %s"
                    % (nfixed, "all transparent" if not nprobe_fail else "%d FAILED" % nprobe_fail))
 
     nh, Lmax = (300, 8) if tier == "quick" else (5000, 20)
     discarded = 0
     dist = {"real": 0, "complex": 0, "square": 0, "rect": 0, "mode_F": 0, "mode_A": 0, "mode_mixed": 0,
-            "large_dynamic_range_alphabet": 0, "with_in_place_writes": 0, "writes_to_returned_arrays": 0, "writes_to_input_arrays": 0,
+            "large_dynamic_range_alphabet": 0, "operator_f64": 0, "operator_c128": 0, "operator_f32": 0,
+            "operator_f64_cin": 0, "operator_f32_cin": 0, "with_in_place_writes": 0, "writes_to_returned_arrays": 0, "writes_to_input_arrays": 0,
             "fed_back_inputs": 0, "fed_back_as_same_object": 0, "reused_input_objects": 0, "near_equal_inputs": 0,
             "alphabet_vectors_used_as_model_and_data": 0, "hits": 0, "evictions": 0, "calls": 0}
     maxn_count = {}
@@ -621,16 +673,19 @@ def main(tier):
     while len(cases) < nh + nfixed:
         r = common.rng(PID, tier, i)
         i += 1
-        cplx = r.random() < 0.4
-        A = gen_matrix(r, cplx)
+        kind = r.choice(["f64"] * 8 + ["c128"] * 6 + ["f32"] * 2 + ["f64_cin"] * 3 + ["f32_cin"])
+        cin = kind.endswith("_cin")                 # real-dtype operator driven with complex (and real) vectors
+        cplx = kind == "c128" or cin                # representation of the vectors in the Coq case
+        A = gen_matrix(r, kind == "c128")
+        A = A.astype({"f64": np.float64, "c128": np.complex128, "f32": np.float32}[kind.split("_")[0]])
         maxn = r.choice([1, 2, 3, 10])
         mode = r.choice(["F", "A", "M", "M", "M"])
         if A.shape[0] == A.shape[1] and mode != "M" and r.random() < 0.5:
             mode = "M"
         with_mut = r.random() < 0.55
         L = r.randint(2, Lmax)
-        dyn = r.random() < 0.3
-        hist, st = gen_history(r, A, cplx, maxn, L, mode, with_mut, dyn)
+        dyn = (not cin) and r.random() < 0.3
+        hist, st = gen_history(r, A, cplx, maxn, L, mode, with_mut, dyn, cin)
         run = execute(A, cplx, maxn, hist)
         if not run.obs or borderline(A, cplx, run):
             discarded += 1
@@ -639,6 +694,7 @@ def main(tier):
         cases.append({"id": len(cases), "A": A, "cplx": cplx, "maxn": maxn, "hist": hist, "out": obs, "coq": run.coq,
                       "model": model, "mode": mode, "run": run})
         dist["complex" if cplx else "real"] += 1
+        dist["operator_" + kind] += 1
         dist["large_dynamic_range_alphabet"] += 1 if dyn else 0
         dist["square" if A.shape[0] == A.shape[1] else "rect"] += 1
         dist["mode_" + {"F": "F", "A": "A", "M": "mixed"}[mode]] += 1
@@ -745,7 +801,8 @@ def main(tier):
              "OBJECT (5-9 small-integer vectors incl. +1e-9 and +1e-3 perturbations; one COMMON alphabet for both directions when the "
              "operator is square), a fresh copy, or an array returned earlier (same object or copy), and in-place overwrites of any "
              "array the caller holds (returned or passed earlier); max_neval in {1,2,3,10}; wrapped operator = non-unitary, "
-             "non-self-adjoint integer / Gaussian-integer MatrixMult of shapes %s; histories with an allclose decision within a factor "
+             "non-self-adjoint integer / Gaussian-integer MatrixMult of dtype float64 / complex128 / float32 and shapes %s; ~13%% of the "
+             "histories drive a REAL-dtype operator with complex vectors z, Re z (as float64 and as complex128), z' with the same real part; histories with an allclose decision within a factor "
              "10 of the tolerance are discarded; evaluations = calls made on MemoizeOperator; non-trivial = distinct (matrix, max_neval, "
              "history) with at least one cache hit and at least one miss" % (nfixed, Lmax, sorted(set(SHAPES))),
         histories=len(cases), discarded_borderline=discarded, distribution=dist, max_neval_counts=maxn_count,
